@@ -51,7 +51,28 @@ def _seeded_variants():
     return out
 
 
-VARIANTS = list(_CORPUS) + _seeded_variants()
+def _refactor_variants():
+    """Behaviour-preserving refactorings written by independent agents (/verif/refactors/<id>/:
+    patch.diff + note.txt; each passes the full suite and was compared bit-for-bit with the original
+    by its author).  Every check must stay silent on every one of them."""
+    from gridlint.core import VERIF_DIR
+    out = []
+    rd = os.path.join(VERIF_DIR, "refactors")
+    if not os.path.isdir(rd):
+        return out
+    import re
+    props = sorted({v["prop"] for v in _CORPUS})
+    for rid in sorted(os.listdir(rd)):
+        pp = os.path.join(rd, rid, "patch.diff")
+        if not os.path.isfile(pp):
+            continue
+        files = ", ".join(sorted(set(re.findall(r"^\+\+\+ b/src/grid/(\S+)", open(pp, errors="replace").read(), re.M))))
+        for prop in props:
+            out.append({"prop": prop, "name": f"refactoring {rid} ({files})", "kind": "silent", "edits": [("patch", pp)]})
+    return out
+
+
+VARIANTS = list(_CORPUS) + _seeded_variants() + _refactor_variants()
 
 
 def make_scratch(root, need_data_overlay=False):
